@@ -111,7 +111,9 @@ func (m *Machine) bigByteLen(abs *Term) int {
 	return k
 }
 
-// bigBytesBE returns the n big-endian bytes of abs (abs < 256^n assumed).
+// bigBytesBE returns the n big-endian bytes of abs (abs < 256^n on this path).
+// Symbolic integers get fresh byte symbols tied to the value by one linear constraint
+// abs = sum b_i*256^k, which keeps byte-level code (complement, carry, reversal) in linear arithmetic.
 func (m *Machine) bigBytesBE(abs *Term, n int) []*Term {
 	tt := m.TT
 	out := make([]*Term, n)
@@ -128,42 +130,79 @@ func (m *Machine) bigBytesBE(abs *Term, n int) []*Term {
 		}
 		return out
 	}
-	bv := tt.Int2BV(8*n, abs)
-	for i := 0; i < n; i++ {
-		// byte i (big endian) = bits [8(n-i)-1 : 8(n-i-1)]
-		out[i] = tt.Extract(8*(n-i)-1, 8*(n-i-1), bv)
+	if abs.Op == OBV2Nat && abs.Args[0].S.W%8 == 0 {
+		// bytes of an unsigned machine integer: plain extracts
+		x := abs.Args[0]
+		w := x.S.W / 8
+		for i := 0; i < n; i++ {
+			k := n - 1 - i // byte significance
+			if k < w {
+				out[i] = tt.Extract(8*k+7, 8*k, x)
+			} else {
+				out[i] = tt.BVConst(8, 0)
+			}
+		}
+		return out
 	}
+	m.ufSeq++
+	for i := 0; i < n; i++ {
+		out[i] = tt.Sym(fmt.Sprintf("$byte.%d.%d", m.ufSeq, i), BV(8))
+	}
+	m.addPC(tt.Eq(abs, m.bytesToNat(out)), false)
 	return out
 }
 
-// bytesToNat: big-endian bytes to Int.
+// bytesToNat: big-endian bytes to Int, as a canonical sum (most significant first). Runs of bytes that are
+// consecutive extracts of one bit-vector are kept together as bv2nat(extract(...)).
 func (m *Machine) bytesToNat(bs []*Term) *Term {
 	tt := m.TT
-	if len(bs) == 0 {
+	n := len(bs)
+	if n == 0 {
 		return tt.IntConst64(0)
 	}
-	allConst := true
-	for _, b := range bs {
-		if !b.IsConst() {
-			allConst = false
+	konst := new(big.Int)
+	var terms []*Term
+	pow := func(k int) *big.Int { return new(big.Int).Lsh(big.NewInt(1), uint(8*k)) }
+	i := 0
+	for i < n {
+		b := bs[i]
+		k := n - 1 - i
+		if b.IsConst() {
+			konst.Add(konst, new(big.Int).Mul(new(big.Int).SetUint64(b.U), pow(k)))
+			i++
+			continue
 		}
-	}
-	if allConst {
-		raw := make([]byte, len(bs))
-		for i, b := range bs {
-			raw[i] = byte(b.U)
+		// run of extracts from the same base, descending
+		if b.Op == OExtract && b.P1-b.P2 == 7 {
+			base := b.Args[0]
+			hi := b.P1
+			lo := b.P2
+			j := i + 1
+			for j < n && bs[j].Op == OExtract && bs[j].Args[0] == base && bs[j].P1 == lo-1 && bs[j].P1-bs[j].P2 == 7 {
+				lo = bs[j].P2
+				j++
+			}
+			if j > i+1 {
+				run := tt.BV2Nat(tt.Extract(hi, lo, base))
+				kk := n - j // significance of the run's lowest byte
+				if kk > 0 {
+					run = tt.IBin(OIMul, run, tt.IntConst(pow(kk)))
+				}
+				terms = append(terms, run)
+				i = j
+				continue
+			}
 		}
-		return tt.IntConst(new(big.Int).SetBytes(raw))
-	}
-	// sum of bv2nat(b_i) * 256^k keeps the integer solver happy
-	res := tt.IntConst64(0)
-	for i, b := range bs {
-		k := len(bs) - 1 - i
-		term := tt.BV2Nat(b)
+		t := tt.BV2Nat(b)
 		if k > 0 {
-			term = tt.IBin(OIMul, term, tt.IntConst(new(big.Int).Lsh(big.NewInt(1), uint(8*k))))
+			t = tt.IBin(OIMul, t, tt.IntConst(pow(k)))
 		}
-		res = tt.IBin(OIAdd, res, term)
+		terms = append(terms, t)
+		i++
+	}
+	res := tt.IntConst(konst)
+	for _, t := range terms {
+		res = tt.IBin(OIAdd, res, t)
 	}
 	return res
 }
